@@ -55,24 +55,19 @@ CLAIMED = {
         technique="Lean 4 theorems (runner returns if components do; word parser returns on every text) + outcome-class correspondence of the interpreter port + four-stream search with step budget",
         design="§4 C02"),
     "C03": dict(
-        category="translation_validation",
-        text="The interpreter (subrule.rs, rule.rs: all four rule types, every matcher, cursor arithmetic with release-mode wrapping, panics and "
-             "non-termination as values) is ported line by line to an executable Lean model and compared with Rule::apply on ~27k generated "
-             "(rule, word) cases per quick run (400k thorough) through the AST hook - identical outcome class and identical resulting word; and an "
-             "independent reference interpreter written from the manual is compared with the implementation over the basic fragment (~110k cases "
-             "quick, 2.4M thorough). Machine-checked: a rule whose input matches nowhere is the identity (any rule type but insertion; empty word); "
-             "and ONE STEP of a basic rule `A > t` (substitution_basic_step, rewriteRun_frame, setSyll_frame): given the capture of a segment at a "
-             "position, the substitution step returns, changes only the syllable of the match, in it replaces exactly the matched run by `t`, keeps "
-             "stress and tone, leaves every segment before and after in place, and resumes the search right after the new segment. The whole-scan "
-             "refinement `basic_refines` (all steps composed = the manual's reading) is NOT proved - hence this level. Proved over the WHOLE SCAN, for every "
-             "word, every number of matches and EVERY environment and exception (by induction on the scan of the interpreter port): `a > t / env` returns, if it "
-             "returns a word, a word obtained by rewriting runs of `a` into `t` and nothing else (basic_scan_sound_env: same syllables, stress, tone; without an "
-             "environment it also cannot fail, basic_scan_sound); and `X > [features] / env`, X any single-segment element, keeps the shape of the word "
-             "(feature_rule_keeps_shape), and `X > t / env` keeps syllables, stress and tone (replacement_rule_keeps_prosody). What is missing for the full property is completeness (every selected occurrence IS rewritten) - decided by the "
-             "reference interpreter.",
-        note="Trusted: harness reference interpreter (frag.rs), hooks, generators. Not a proof of the property: validation of model and code against "
-             "the documented semantics on generated inputs.",
-        technique="Lean 4 executable port + step/frame theorems + model/impl correspondence + reference interpreter from the manual",
+        text="Over a line-by-line Lean port of the interpreter (subrule.rs, rule.rs: all four rule types, every matcher, cursor arithmetic with release-mode wrapping, "
+             "panics and non-termination as values), tied to Rule::apply on ~28k generated (rule, word) cases per quick run (identical outcome class and word). PROVED by "
+             "induction over the whole scan, for every word and any number of matches: (1) EXACTNESS of the basic rule `a > t` without environment (a != t; "
+             "C03Complete.basic_rule_exact): whenever SubRule::apply returns a word, that word is a rewriting of runs of `a` into `t` and nothing else (same syllables, stress, "
+             "tone, every other segment in place) AND contains no `a` any more - soundness and completeness, with the cursor followed through increment / skip-run arithmetic "
+             "(words whose counters do not wrap, < 2^64-1); without an environment the rule also cannot fail or panic (basic_scan_sound). (2) SOUNDNESS under EVERY environment "
+             "and exception, with the environment matcher an opaque call whose three outcomes are all handled: `a > t / env` rewrites nothing but runs of `a` "
+             "(basic_scan_sound_env); `X > t / env` for any single-segment X keeps syllables, stress and tone (replacement_rule_keeps_prosody); `X > [features] / env` keeps the "
+             "shape of the word (feature_rule_keeps_shape). PARTIAL: completeness UNDER an environment (exactly the positions the environment selects are rewritten) is not proved; it "
+             "is decided by an independent reference interpreter written from the manual, compared with the implementation over the basic fragment (~110k cases quick, 2.4M thorough).",
+        note="Trusted: Lean kernel, standard axioms; the hand port (Model/Interp), tied to the code by the interp-ops correspondence on every run; the harness reference "
+             "interpreter (frag.rs) for the part that is not proved; hooks, generators.",
+        technique="Lean 4 whole-scan theorems on the interpreter port (exactness without environment, soundness with any environment) + model/impl correspondence + reference interpreter from the manual",
         design="§4 C03"),
     "C04": dict(
         text="Machine-checked theorems about a line-by-line Lean model of SubRule::match_modifiers / Segment::apply_seg_mods: a binary feature "
